@@ -54,4 +54,30 @@ directories (alias, share mode, users) and the indexed items -/
 def entitlementInputs (s : S) : List Name × List (Name × Nat) × List DirInfo × List SItem :=
   (s.cfg.friends, s.cfg.blocked, s.cfg.dirs, s.sh.items)
 
+/-- the same with the friends / block list **as announced**: the two settings are polled by the user
+manager (every second), what the rest of the client has been told of them is the copy the polling
+job took when it last emitted its events -/
+def announcedInputs (s : S) : List Name × List (Name × Nat) × List DirInfo × List SItem :=
+  (s.seenFriends, s.seenBlocked, s.cfg.dirs, s.sh.items)
+
+/-- a change no management cycle has seen yet: announced (the shares-changed flag is set) or still to
+be announced by the next poll (a polled setting differs from the user manager's copy) -/
+def pending (s : S) : Bool :=
+  s.sharesChanged || s.cfg.friends != s.seenFriends || s.cfg.blocked != s.seenBlocked
+
+/-- Known finding `C08-settings-flip-within-poll-interval`: the op puts a polled setting back to the
+value the user manager last saw, while nothing else is pending — the excursion is never announced,
+whatever was admitted or reconciled against the transient value is not evaluated again. -/
+def flipsBack (s : S) : Op → Bool
+  | .mutFriends l =>
+    !s.sharesChanged && s.cfg.blocked == s.seenBlocked && l == s.seenFriends && s.cfg.friends != l
+  | .mutBlocked l =>
+    !s.sharesChanged && s.cfg.friends == s.seenFriends && l == s.seenBlocked && s.cfg.blocked != l
+  | _ => false
+
+/-- no op of the list is such a flip-back in the state in which it runs -/
+def noFlipBack (s : S) : List Op → Bool
+  | [] => true
+  | o :: l => !flipsBack s o && noFlipBack (step s o).1 l
+
 end AioslskVerif.Entitle
